@@ -398,8 +398,58 @@ class CFG:
             ast.fix_missing_locations(n)
         return out
 
+    def _table_dispatch(self, st: ast.stmt) -> list[ast.stmt] | None:
+        """`x = TABLE.get(key, default)` with TABLE a dict display bound once at the top of this module (at most 12
+        constant / enum keys) and `key` a plain name or attribute chain: the if-chain the table abbreviates
+        (`if key == K1: x = V1 elif ... else: x = default`) - a decision written as data"""
+        import copy
+
+        val = st.value if isinstance(st, (ast.Assign, ast.AnnAssign)) else None
+        if not (isinstance(val, ast.Call) and isinstance(val.func, ast.Attribute) and val.func.attr == "get" and isinstance(val.func.value, ast.Name) and 1 <= len(val.args) <= 2 and not val.keywords):
+            return None
+        tname = val.func.value.id
+        if tname in self.prog.func_locals(self.func):
+            return None
+        m = self.func.module
+        table = m.assigns.get(tname)
+        if not isinstance(table, ast.Dict) or not table.keys or len(table.keys) > 12 or any(k is None for k in table.keys):
+            return None
+        if sum(1 for n in ast.walk(m.tree) if isinstance(n, ast.Name) and n.id == tname and isinstance(n.ctx, (ast.Store, ast.Del))) != 1:
+            return None
+        key = val.args[0]
+
+        def chain(e: ast.expr) -> bool:
+            return isinstance(e, ast.Name) or (isinstance(e, ast.Attribute) and chain(e.value))
+
+        def const_like(e: ast.expr) -> bool:
+            return isinstance(e, ast.Constant) or chain(e)
+
+        if not chain(key) or not all(const_like(k) for k in table.keys) or not all(const_like(v) for v in table.values):
+            return None
+        if len(val.args) == 2 and has_events(val.args[1]):
+            return None
+        if isinstance(st, ast.Assign) and len(st.targets) == 1 and isinstance(st.targets[0], ast.Name):
+            tgt = st.targets[0].id
+        elif isinstance(st, ast.AnnAssign) and isinstance(st.target, ast.Name):
+            tgt = st.target.id
+        else:
+            return None
+        default: ast.expr = val.args[1] if len(val.args) == 2 else ast.Constant(value=None)
+        store = lambda v: ast.Assign(targets=[ast.Name(id=tgt, ctx=ast.Store())], value=copy.deepcopy(v))  # noqa: E731
+        node: list[ast.stmt] = [store(default)]
+        for k, v in reversed(list(zip(table.keys, table.values))):
+            test = ast.Compare(left=copy.deepcopy(key), ops=[ast.Eq()], comparators=[copy.deepcopy(k)])
+            node = [ast.If(test=test, body=[store(v)], orelse=node)]
+        for n in node:
+            for sub in ast.walk(n):
+                ast.copy_location(sub, st)
+            ast.fix_missing_locations(n)
+        return node
+
     def _stmt(self, st: ast.stmt, ends: list[End]) -> list[End]:
         fm = self._first_match(st)
+        if fm is None:
+            fm = self._table_dispatch(st)
         if fm is not None:
             return self._stmts(fm, ends)
         if isinstance(st, ast.Expr):
